@@ -1665,6 +1665,22 @@ func (r *Raft) appendEntries(rpc RPC, a *AppendEntriesRequest) {
 			commitIndex := min(a.LeaderCommitIndex, lastNewIndex)
 			r.tryStageCommitIndex(commitIndex)
 
+			// A MonotonicLogStore cannot hold a gap. If the log we still hold ends
+			// below our snapshot while the new entries start right behind the
+			// snapshot (an earlier attempt to reset the log after a snapshot
+			// install failed), everything in it is covered by the snapshot: drop
+			// it now, otherwise the store refuses these entries for ever.
+			if mlogs, ok := r.logs.(MonotonicLogStore); ok && mlogs.IsMonotonic() {
+				storeLast, err := r.logs.LastIndex()
+				if err == nil && storeLast > 0 && storeLast < lastSnapIdx && storeLast+1 < newEntries[0].Index {
+					if err := r.removeOldLogs(); err != nil {
+						r.logger.Error("failed to reset logs", "error", err)
+						return
+					}
+					r.setLastLog(0, 0)
+				}
+			}
+
 			// Append the new entries
 			if err := r.logs.StoreLogs(newEntries); err != nil {
 				r.logger.Error("failed to append to logs", "error", err)
